@@ -21,7 +21,14 @@ CHILD_FILES = ["x.y.c", "v1.2.h", "a.c.bak", "a.hh", "ac", "a.c", "b.h"]
 GITIGNORES = ["*.h\n", "src/\n", "my file.c\n", ""]
 
 
+# C15-10: the selection must not depend on what a file holds -- two names of the alphabet are zero-byte files (a stub
+# made with touch(1) is a requested regular file like any other and gets its verdict line)
+ZERO_BYTE = ("x.y.c", "v1.2.h")
+
+
 def content(name):
+    if name in ZERO_BYTE:
+        return ""
     hdr = header42.header_text(name) + "\n"
     if name.endswith(".h"):
         g = name.upper().replace(".", "_").replace(" ", "_")
